@@ -55,15 +55,27 @@
                             certificate `cleanB` (`Model/Tess/SweepCert.lean`) evaluates to `true` can only
                             panic on the assertion or the NaN sort key.  The certificate replays the run and
                             checks, at every event: the scan result passes `scanAgreeB` (what the proofs
-                            need of `HorizAgree`), the winding is conserved (`eventOkB`); after every
-                            `recover_from_error`: the state is coherent (`cohB`) - so runs through the
-                            recovery are covered too.  The C01 check evaluates it on EVERY explored case
+                            need of `HorizAgree`), the winding is conserved (`eventOkB`).  Nothing else:
+                            runs through `recover_from_error` are covered by `recovery_coherent` below.
+                            The C01 check evaluates it on EVERY explored case
                             (family `sweepcert:32`: `cert ok` = not finite, or certificate true).
+  * `recovery_coherent`     (EVERY scalar type, all inputs) from a coherent state `recover_from_error`
+                            ends in a coherent state again, or in `Err(MergeVertexOutside)` (lyon 747d7f78),
+                            or in the NaN-key panic of the sort: the insertion sort and the merge-vertex
+                            fix-up permute the active list (total winding stays `out`, merge vertices keep
+                            winding 0), the fix-up leaves every merge vertex inside an `in` region, the
+                            final "last edge is a merge" swap is then a no-op, and the span list is
+                            rebuilt to exactly the number of `in` transitions
+                            (`Lemmas/SweepSafeCoh{Sort,Fix,Recover}.lean`);
+  * `sweep_no_panic_winding_partial` / `sweep_no_panic_winding_field_partial` where the on-edge tests of
+                            the scan agree (`HorizAgree`; every ordered field) the certificate needs the
+                            winding check only (`windB`): over ordered fields winding conservation is the
+                            ONLY unproved residue of the no-panic clause;
   * `sweep_no_panic_clean_partial` the same with `NextUpOk`, `NoNaN`: no panic at all;
                             `sweep_no_panic_clean_field_partial` over every ordered field.  `_partial`:
                             the certificate is a hypothesis about the run; winding conservation (a property
-                            of the pointer-level event queue) and the coherence after a recovery are
-                            checked per run, NOT proved for all inputs.
+                            of the pointer-level event queue) and `scanAgreeB` are checked per run, NOT
+                            proved for all inputs - this is exactly the unproved residue.
 
   Theorems:
   * `sweep_no_structural_panic`  (all scalar types, no hypothesis) a run never ends in `mDead` or
@@ -242,35 +254,55 @@ theorem process_events_coherent (hUp : NextUpOk α) (s1 : St α) (hc : Coh s1) (
   processEvents_coh_at s1 hc (fun scan h => scanAgree_of_horiz (of_scan_both h).1 (of_scan_both h).2 hH)
     (Or.inl hUp)
 
+/-- **`recover_from_error` re-establishes the coherence invariant - every scalar type, all inputs.**
+From a coherent state the recovery (sort of the active list, merge-vertex fix-up, span repair) ends
+in a coherent state, or fails with `Err(MergeVertexOutside)` / fuel / the unmodelled >20-element
+inconsistent sort, or panics on a NaN sort key (`mNaN`; not at all when the scalar type has no NaN). -/
+theorem recovery_coherent (tol : α) :
+    ⦃fun s => ⌜Coh s ∧ s.tolerance = tol⌝⦄ (recoverFromError : SM α Unit)
+    ⦃safePost [mNaN] fun _ s3 => Coh s3 ∧ s3.tolerance = tol⦄ :=
+  recoverFromError_coh (Or.inr (by simp)) tol
+
+theorem recovery_coherent_no_nan (hNaN : NoNaN α) (tol : α) :
+    ⦃fun s => ⌜Coh s ∧ s.tolerance = tol⌝⦄ (recoverFromError : SM α Unit)
+    ⦃safePost [] fun _ s3 => Coh s3 ∧ s3.tolerance = tol⦄ :=
+  recoverFromError_coh (Or.inl hNaN) tol
+
+/-- what the sort + fix-up of `recover_from_error` guarantee about the new active list: same total
+winding, merge vertices with winding 0 and all inside `in` regions -/
+theorem sort_active_edges_spec (s0 : St α) (hz : ∀ x ∈ sigs s0, x.1 = true → x.2 = 0) :
+    ⦃fun s => ⌜Fr s0 s⌝⦄ (sortActiveEdges : SM α Unit) ⦃safePost [mNaN] fun _ s' => SortedOK s0 s'⦄ :=
+  sortActiveEdges_coh (Or.inr (by simp)) s0 hz
+
 /-- **A certified run can only panic on the assertion or on a NaN sort key - for EVERY scalar type**,
 `f32` included, without any hypothesis: `cleanB` (executable, `Model/Tess/SweepCert.lean`) replays
 the run and checks at every event that the scan result passes `scanAgreeB` and that the winding is
-conserved (`eventOkB`), and after every `recover_from_error` that the state is coherent (`cohB`).
-The C01 check evaluates it on every explored case (family `sweepcert:32`). -/
+conserved (`eventOkB`) - nothing else (the state after a `recover_from_error` is coherent by
+`recovery_coherent`).  The C01 check evaluates it on every explored case (family `sweepcert:32`). -/
 theorem sweep_no_panic_certified (entry : Entry) (rule : Slab.Rule) (horizontal : Bool)
     (tol : α) (handleIx : Bool) (subs : List (SubPath α))
     (hB : cleanB entry rule horizontal tol handleIx subs = true) (w : String)
     (h : (tessellate entry rule horizontal tol handleIx subs).1 = some (.panic w)) :
     w ∈ [mAssert, mNaN] :=
   tessellate_clean (A := [mAssert, mNaN]) entry rule horizontal tol handleIx subs (Or.inr (by simp))
-    (Or.inr (by simp)) hB _ h w rfl
+    (Or.inr (by simp)) true (Or.inl rfl) hB _ h w rfl
 
 theorem sweep_impl_no_panic_certified (q : Queue α) (rule : Slab.Rule) (horizontal : Bool)
     (tol : α) (handleIx : Bool) (hB : cleanRunB q rule horizontal tol handleIx = true) (w : String)
     (h : (tessellateImpl q rule horizontal tol handleIx).1 = some (.panic w)) : w ∈ [mAssert, mNaN] :=
   tessellateImpl_clean (A := [mAssert, mNaN]) q rule horizontal tol handleIx (Or.inr (by simp))
-    (Or.inr (by simp)) hB _ h w rfl
+    (Or.inr (by simp)) true (Or.inl rfl) hB _ h w rfl
 
 /-- **A run with a clean certificate does not panic** (scalar types with `y < next_after(y)` and
 without NaN).  `_partial`: the certificate is a hypothesis about the run, not proved for all inputs
-(winding conservation is a property of the pointer-level event queue; the coherence of the state
-after a recovery is checked, not proved) - see the header. -/
+(winding conservation is a property of the pointer-level event queue) - see the header. -/
 theorem sweep_no_panic_clean_partial (hUp : NextUpOk α) (hNaN : NoNaN α) (entry : Entry) (rule : Slab.Rule)
     (horizontal : Bool) (tol : α) (handleIx : Bool) (subs : List (SubPath α))
     (hB : cleanB entry rule horizontal tol handleIx subs = true) (w : String) :
     (tessellate entry rule horizontal tol handleIx subs).1 ≠ some (.panic w) := by
   intro h
-  have := tessellate_clean (A := []) entry rule horizontal tol handleIx subs (Or.inl hUp) (Or.inl hNaN) hB _ h w rfl
+  have := tessellate_clean (A := []) entry rule horizontal tol handleIx subs (Or.inl hUp) (Or.inl hNaN) true
+    (Or.inl rfl) hB _ h w rfl
   cases this
 
 theorem sweep_impl_no_panic_clean_partial (hUp : NextUpOk α) (hNaN : NoNaN α) (q : Queue α) (rule : Slab.Rule)
@@ -278,7 +310,20 @@ theorem sweep_impl_no_panic_clean_partial (hUp : NextUpOk α) (hNaN : NoNaN α) 
     (hB : cleanRunB q rule horizontal tol handleIx = true) (w : String) :
     (tessellateImpl q rule horizontal tol handleIx).1 ≠ some (.panic w) := by
   intro h
-  have := tessellateImpl_clean (A := []) q rule horizontal tol handleIx (Or.inl hUp) (Or.inl hNaN) hB _ h w rfl
+  have := tessellateImpl_clean (A := []) q rule horizontal tol handleIx (Or.inl hUp) (Or.inl hNaN) true
+    (Or.inl rfl) hB _ h w rfl
+  cases this
+
+/-- **Winding conservation is the only residue where the on-edge tests agree** (`HorizAgree`: every
+ordered field): a run whose executable winding certificate `windB` (`eventOkB` at every event, nothing
+else) is true does not panic. -/
+theorem sweep_no_panic_winding_partial (hUp : NextUpOk α) (hNaN : NoNaN α) (entry : Entry) (rule : Slab.Rule)
+    (horizontal : Bool) (tol : α) (hH : HorizAgree (tol * half)) (handleIx : Bool) (subs : List (SubPath α))
+    (hB : windB entry rule horizontal tol handleIx subs = true) (w : String) :
+    (tessellate entry rule horizontal tol handleIx subs).1 ≠ some (.panic w) := by
+  intro h
+  have := tessellate_clean (A := []) entry rule horizontal tol handleIx subs (Or.inl hUp) (Or.inl hNaN) false
+    (Or.inr hH) hB _ h w rfl
   cases this
 
 end coherence
@@ -330,6 +375,22 @@ theorem sweep_no_panic_clean_field_partial (fmin eps : K) (sqrt : K → K) (entr
   exact sweep_no_panic_clean_partial (nextUpOk_exact fmin eps sqrt) (noNaN_exact fmin eps sqrt) entry rule
     horizontal tol handleIx subs hB w
 
+/-- **Over every linearly ordered field the only unproved residue of the no-panic clause is winding
+conservation**: if the winding is conserved at every event of the run (`windB`, executable: the
+windings of the edges leaving each vertex balance those of the edges that end there, no stray vertex)
+the modelled sweep does not panic - whatever the input, options, entry point. -/
+theorem sweep_no_panic_winding_field_partial (fmin eps : K) (sqrt : K → K) (entry : Entry) (rule : Slab.Rule)
+    (horizontal : Bool) (tol : K) (htol : 0 ≤ tol) (handleIx : Bool) (subs : List (SubPath K))
+    (hB : @windB K _ (exactWide fmin eps sqrt) entry rule horizontal tol handleIx subs = true) (w : String) :
+    (@tessellate K _ (exactWide fmin eps sqrt) entry rule horizontal tol handleIx subs).1 ≠ some (.panic w) := by
+  let _ := exactWide fmin eps sqrt
+  refine sweep_no_panic_winding_partial (nextUpOk_exact fmin eps sqrt) (noNaN_exact fmin eps sqrt) entry rule
+    horizontal tol ?_ handleIx subs hB w
+  apply horizAgree_field
+  show (0 : K) ≤ tol * (Scalar.ofSci 5 1)
+  rw [sc_half]
+  positivity
+
 end field
 
 /-! ### non-vacuity (kernel-evaluated on the exact integer instance `Z` of `Lemmas/SweepIdxZ.lean`) -/
@@ -370,6 +431,29 @@ example :
   decide +kernel
 
 example : HorizAgree (α := Z) ((⟨1⟩ : Z) * half) := horizAgree_Z _ (by decide)
+
+/-- non-vacuity of `sweep_no_panic_winding_partial`: the winding-only certificate of the same triangle -/
+example :
+    windB (α := Z) .path .nonZero false ⟨1⟩ true [([pz 1 0, pz 0 2, pz 3 3], true)] = true := by
+  decide +kernel
+
+/-- a sweep state in the middle of a shape: two edges `(0,0)-(0,4)` (winding 1) and `(4,0)-(4,4)`
+(winding -1) STORED IN THE WRONG ORDER, one span -/
+def recState : St Z :=
+  { q := Queue.empty, curPos := pz 1 2, curVertex := 1, curEvent := 0,
+    active := #[⟨pz 4 0, pz 4 4, -1, false, 0, 0, ⟨1⟩⟩, ⟨pz 0 0, pz 0 4, 1, false, 1, 1, ⟨1⟩⟩], below := #[],
+    spans := #[some Adv.new], pool := [], rule := .nonZero, horizontal := false, tolerance := ⟨0⟩,
+    handleIntersections := true, out := #[], nverts := 2 }
+
+/-- non-vacuity of `recovery_coherent`: `recState` is coherent (precondition inhabited by a state with
+edges), and `recover_from_error` succeeds on it, re-sorting the two edges -/
+example : Coh recState := coh_of_B (by decide +kernel)
+
+example :
+    (match ((recoverFromError (α := Z)).run.run recState : Except Fail Unit × St Z) with
+     | (.ok _, s3) => (match s3.active.toList with | [a, b] => a.srcEdge == 1 && b.srcEdge == 0 | _ => false) && cohB s3
+     | _ => false) = true := by
+  decide +kernel
 
 /-- the panic branches are real: on a state WITHOUT spans (not a state the sweep reaches) a vertex
 event panics with a message of the residue -/
